@@ -1,6 +1,7 @@
 package nc
 
 import (
+	"go/types"
 	"fmt"
 	"sort"
 	"strings"
@@ -60,6 +61,8 @@ func rulesC19(c *Ctx) {
 	R.Rule("R1", "every successful submission of counter-derived outputs is followed by a matching successful counter increment before success; none after a failed submission", 14)
 	R.Rule("R2", "restore scan: consecutive counters, three consecutive empty batches, per-batch delta advance after every non-empty batch", 5)
 	R.Rule("R3", "restore: secret and r from the same counter and the keyset's own path; proof rebuilt with the r of the matched B_", 2)
+	R.Rule("R4", "the stored counter is never overwritten with a stale value: a keyset record is saved with a counter read from storage, or 0 only for a keyset that is not stored yet", 6)
+	c.c19NoStaleCounter()
 
 	// the swap request helper is consistent: outputs derived on the keyset it records
 	if f := c.fn("R1", fnCreateSwap); f != nil {
@@ -427,4 +430,175 @@ func (c *Ctx) c19Restore() {
 	okK := strings.HasSuffix(k.String(), ".Id") && strings.Contains(k.String(), "GetAllKeysets#0(")
 	R.Check("R2", fk, "advance names the keyset being restored", c.P.InstrPos(incr), okK, "the counter of the keyset being restored is advanced", short(k.String(), 120))
 	_ = fmt.Sprintf
+}
+
+// c19NoStaleCounter: R4. The counter lives in the stored keyset record and is advanced there; the
+// wallet's in-memory keyset copies never see those advances. Saving a keyset record therefore must not
+// take its Counter from anything but storage - or be 0 for a keyset that provably is not stored yet.
+func (c *Ctx) c19NoStaleCounter() {
+	R := c.R
+	fromStorage := func(e *Ex) bool {
+		return e.Has(func(x *Ex) bool {
+			if x.K != "call" || x.Call == nil {
+				return false
+			}
+			d := c.P.Describe(x.Call)
+			return d.Iface != nil && (d.Iface.Name() == "GetKeyset" || d.Iface.Name() == "GetKeysets" || d.Iface.Name() == "GetKeysetCounter")
+		})
+	}
+	isZero := func(e *Ex) bool {
+		// 0, or the Counter field of a zero-valued struct (a composite literal that does not set it)
+		return isConst(e, "0") || e.K == "zero" || (e.K == "field" && e.S == "Counter" && (e.Args[0].K == "zero" || isConst(e.Args[0], "nil")))
+	}
+	// resolve "(result of a module function).Counter" through the function's returns
+	var resolve func(e *Ex, depth int) []*Ex
+	resolve = func(e *Ex, depth int) []*Ex {
+		if depth > 3 || e.K != "field" || e.S != "Counter" {
+			return []*Ex{e}
+		}
+		base := e.Args[0]
+		for base.K == "elem" || base.K == "deref" || base.K == "index" {
+			base = base.Args[0]
+		}
+		if base.K != "call" || base.Call == nil {
+			return []*Ex{e}
+		}
+		callee := base.Call.Common().StaticCallee()
+		if callee == nil || !c.moduleFn(callee) || callee.Parent() != nil {
+			return []*Ex{e}
+		}
+		co := c.P.OriginsOf(callee)
+		idx := base.Idx
+		if idx < 0 {
+			idx = 0
+		}
+		var out []*Ex
+		for _, r := range co.SuccessReturns() {
+			if idx >= len(r.Results) {
+				return []*Ex{e}
+			}
+			v := r.Results[idx]
+			var rec *Ex
+			if _, isMap := v.Type().Underlying().(*types.Map); isMap {
+				// a map result: the values stored into it
+				found := false
+				for _, b := range callee.Blocks {
+					for _, in := range b.Instrs {
+						if mu, ok := in.(*ssa.MapUpdate); ok && co.sameValue(mu.Map, v) {
+							found = true
+							for _, c2 := range project(co.Of(mu.Value), "Counter").Alts() {
+								out = append(out, resolve(c2, depth+1)...)
+							}
+						}
+					}
+				}
+				if found {
+					continue
+				}
+			}
+			if _, isPtr := v.Type().Underlying().(*types.Pointer); isPtr {
+				rec = co.ContentAt(v, r)
+			} else {
+				rec = co.Of(v)
+			}
+			// a list result: its elements
+			for _, alt := range rec.Alts() {
+				x := alt
+				if x.K == "map" && len(x.Args) == 2 {
+					x = x.Args[1]
+				}
+				for x.K == "acc" && strings.HasPrefix(x.S, "append") && len(x.Args) >= 2 {
+					x = x.Args[len(x.Args)-1]
+				}
+				for _, c2 := range project(x, "Counter").Alts() {
+					out = append(out, resolve(c2, depth+1)...)
+				}
+			}
+		}
+		if len(out) == 0 {
+			return []*Ex{e}
+		}
+		return out
+	}
+	// "this keyset / mint / wallet is not stored yet"
+	fresh := &Cond{Name: "keyset not stored yet (look-up came back empty, mint unknown, or wallet file absent)", Match: func(ft *Fact, _ *Origins) bool {
+		switch ft.Kind {
+		case "nil":
+			if ft.Pos && ft.A.K == "call" && ft.A.Call != nil {
+				if d := c.P.Describe(ft.A.Call); d.Iface != nil && d.Iface.Name() == "GetKeyset" {
+					return true
+				}
+			}
+		case "bool":
+			// _, ok := w.mints[url]; !ok
+			if !ft.Pos && ft.A.K == "ok" && (strings.Contains(ft.A.String(), ".mints") || strings.Contains(ft.A.String(), "loadWalletMints")) {
+				return true
+			}
+		case "errnil":
+			// os.Stat(dbpath) failed: there is no wallet file
+			if !ft.Pos && isCall(ft.A, "os.Stat") {
+				return true
+			}
+		}
+		return false
+	}}
+	var freshAtCallers func(f *ssa.Function, depth int) (bool, string)
+	freshAtCallers = func(f *ssa.Function, depth int) (bool, string) {
+		callers := c.callersOf(f)
+		if len(callers) == 0 || depth > 2 {
+			return false, "no caller establishes that the keyset is not stored yet"
+		}
+		for _, ci := range callers {
+			if ok, _ := c.RequireAt(ci, fresh); ok {
+				continue
+			}
+			if ok, _ := freshAtCallers(EnclosingTop(ci.Parent()), depth+1); ok {
+				continue
+			}
+			return false, "call at " + c.P.InstrPos(ci) + " is not behind a fact that the keyset is not stored yet"
+		}
+		return true, ""
+	}
+	n := 0
+	for _, f := range c.P.Funcs {
+		if f.Pkg == nil || c.P.Rel(f.Pkg.Pkg.Path()) != "wallet" {
+			continue
+		}
+		o := c.P.OriginsOf(f)
+		for _, ci := range Calls(f) {
+			d := c.P.Describe(ci)
+			if d.Iface == nil || d.Iface.Name() != "SaveKeyset" || len(d.Args) != 1 {
+				continue
+			}
+			n++
+			rec := o.ContentAt(d.Args[0], ci)
+			cnt := project(rec, "Counter")
+			ok, why := true, ""
+			var alts []*Ex
+			for _, a := range cnt.Alts() {
+				alts = append(alts, resolve(a, 0)...)
+			}
+			for _, a := range alts {
+				switch {
+				case fromStorage(a):
+				case isZero(a):
+					if okF, _ := c.RequireAt(ci, fresh); okF {
+						continue
+					}
+					if okC, w := freshAtCallers(EnclosingTop(f), 0); okC {
+						continue
+					} else {
+						ok, why = false, "counter 0 is saved but the keyset may already be stored: "+w
+					}
+				default:
+					ok, why = false, "the saved record's counter is "+short(a.String(), 140)+" - an in-memory value that does not see the advances made in storage"
+				}
+			}
+			R.Check("R4", c.P.FuncKey(f), "saved keyset record carries the stored counter", c.P.InstrPos(ci), ok,
+				"a keyset record is saved with the counter read from storage (or 0 for a keyset that is not stored yet)", why)
+		}
+	}
+	if n == 0 {
+		R.Unresolved("R4", "keyset record writes in the wallet", "no SaveKeyset call found")
+	}
 }
